@@ -6,7 +6,7 @@
 EXTENDS Integers, Sequences
 Abs(n) == IF n < 0 THEN -n ELSE n
 RECURSIVE Gcd(_,_)
-Gcd(a, b) == IF b = 0 THEN Abs(a) ELSE Gcd(b, a % b)
+Gcd(a, b) == IF b = 0 THEN Abs(a) ELSE Gcd(Abs(b), Abs(a) % Abs(b))
 Lcm(a, b) == IF a = 0 \/ b = 0 THEN 0 ELSE Abs(a * b) \div Gcd(a, b)
 R(n) == <<n, 1>>
 Zero == <<0, 1>>
@@ -19,11 +19,14 @@ Mk(p, q) == \* q # 0
   LET s == IF q < 0 THEN -1 ELSE 1  g == Gcd(p, q) IN << (s * p) \div g, (s * q) \div g >>
 IsFin(x) == x[2] > 0
 IsInt(x) == x[2] = 1
-RAdd(a, b) == IF a[2] = 1 /\ b[2] = 1 THEN <<a[1] + b[1], 1>>
+\* arithmetic is total: an operand that is not a finite number (infinity, NaN, Err, Unrep) yields <<0,-2>> (Unrep)
+RAdd(a, b) == IF a[2] <= 0 \/ b[2] <= 0 THEN <<0, -2>>
+              ELSE IF a[2] = 1 /\ b[2] = 1 THEN <<a[1] + b[1], 1>>
               ELSE LET l == Lcm(a[2], b[2]) IN Mk(a[1] * (l \div a[2]) + b[1] * (l \div b[2]), l)
 RNeg(a) == <<-a[1], a[2]>>
 RSub(a, b) == RAdd(a, RNeg(b))
-RMul(a, b) == IF a[2] = 1 /\ b[2] = 1 THEN <<a[1] * b[1], 1>>
+RMul(a, b) == IF a[2] <= 0 \/ b[2] <= 0 THEN <<0, -2>>
+              ELSE IF a[2] = 1 /\ b[2] = 1 THEN <<a[1] * b[1], 1>>
               ELSE LET g1 == Gcd(a[1], b[2]) g2 == Gcd(b[1], a[2])
                    IN Mk((a[1] \div g1) * (b[1] \div g2), (a[2] \div g2) * (b[2] \div g1))
 RInv(a) == Mk(a[2], a[1])                                 \* a # 0
